@@ -26,7 +26,7 @@ def scratch(patch=None):
         r = subprocess.run(["git", "apply", "--whitespace=nowarn", os.path.abspath(patch)], cwd=d, capture_output=True, text=True)
         if r.returncode != 0:
             # scratch export is not a git repo: use patch(1)
-            r = subprocess.run("patch -p1 < %s" % os.path.abspath(patch), cwd=d, shell=True, capture_output=True, text=True)
+            r = subprocess.run("patch --binary -p1 < %s" % os.path.abspath(patch), cwd=d, shell=True, capture_output=True, text=True)
             if r.returncode != 0:
                 shutil.rmtree(d)
                 raise SystemExit("patch does not apply: " + r.stdout + r.stderr)
